@@ -146,7 +146,7 @@ func vC09CompactionProperty(t *testing.T, name string, blockLimit bool, rule str
 		if c.forceSize != 0 {
 			size = c.forceSize
 		}
-		inj := rapid.SampledFrom([]string{"none", "none", "none", "none", "none", "none", "abort-block", "abort-block", "abort-file", "corrupt", "corrupt", "exists"}).Draw(rt, "inject")
+		inj := rapid.SampledFrom([]string{"none", "none", "none", "none", "none", "none", "abort-block", "abort-block", "abort-file", "corrupt", "corrupt", "exists", "reader-error", "reader-error"}).Draw(rt, "inject")
 		classes := map[string]bool{}
 		cl := func(s string) { classes[s] = true }
 
@@ -342,7 +342,50 @@ func vC09CompactionProperty(t *testing.T, name string, blockLimit bool, rule str
 		fired := false
 		var junk string
 		nblocks := 0
+		var victimTomb string
+		if inj == "reader-error" {
+			// the one error a BlockIterator reports: the number of keys of an input file changes while the
+			// compaction iterates it. At the first block written, the last key of one group file that holds at
+			// least two keys is removed from that file's reader; the file's iterator still has keys to visit,
+			// so the compaction must fail and leave the originals (plus the tombstone of that delete) in place.
+			type cand struct {
+				f   TSMFile
+				key []byte
+			}
+			var cands []cand
+			inG := map[string]bool{}
+			for _, p := range group {
+				inG[p] = true
+			}
+			fs.mu.RLock()
+			for _, f := range fs.files {
+				if inG[f.Path()] && f.KeyCount() >= 2 {
+					k, _ := f.KeyAt(f.KeyCount() - 1)
+					cands = append(cands, cand{f, append([]byte(nil), k...)})
+				}
+			}
+			fs.mu.RUnlock()
+			if len(cands) == 0 {
+				inj = "none"
+			} else {
+				v := cands[rapid.IntRange(0, len(cands)-1).Draw(rt, "victimFile")]
+				skip[string(v.key)] = true
+				victimTomb = strings.TrimSuffix(filepath.Base(v.f.Path()), "."+TSMFileExtension) + "." + TombstoneFileExtension
+				vC09SetHook(func(ev, path string, _ int64) {
+					if ev == "compact.block" && strings.HasPrefix(path, dir) {
+						nblocks++
+						if !fired {
+							fired = true
+							if err := v.f.Delete([][]byte{v.key}); err != nil {
+								panic(fmt.Sprintf("harness: delete during compaction: %v", err))
+							}
+						}
+					}
+				})
+			}
+		}
 		switch inj {
+		case "reader-error":
 		case "abort-block":
 			n := rapid.SampledFrom([]int{1, 1, 2, 3, 5, 8, 13, 40, 200}).Draw(rt, "abortAt")
 			vC09SetHook(func(ev, path string, _ int64) {
@@ -407,7 +450,7 @@ func vC09CompactionProperty(t *testing.T, name string, blockLimit bool, rule str
 		outcome := "ok"
 		if run.err != nil {
 			outcome = "failed"
-			expected := (inj == "abort-block" || inj == "abort-file") && fired || strings.HasPrefix(inj, "corrupt-") || inj == "exists"
+			expected := (inj == "abort-block" || inj == "abort-file" || inj == "reader-error") && fired || strings.HasPrefix(inj, "corrupt-") || inj == "exists"
 			if !expected {
 				rt.Fatalf("%s compaction (%s size=%d inject=%s fired=%v) failed: %v\ncase: %s", verifkit.Sig("compaction-failed-unexpectedly"), mode, size, inj, fired, run.err, strings.Join(c.describe(), "\n"))
 			}
@@ -415,6 +458,11 @@ func vC09CompactionProperty(t *testing.T, name string, blockLimit bool, rule str
 			after, err := vC09DirState(dir)
 			if err != nil {
 				rt.Fatal(err)
+			}
+			if victimTomb != "" {
+				// the delete issued by the harness legitimately wrote (or rewrote) that file's tombstones
+				delete(after, victimTomb)
+				delete(before, victimTomb)
 			}
 			if d := vC09DirDiff(before, after); d != "" {
 				sig := "failed-compaction-changed-files"
@@ -429,6 +477,8 @@ func vC09CompactionProperty(t *testing.T, name string, blockLimit bool, rule str
 				cp.EnableCompactions()
 			case "exists":
 				os.Remove(junk)
+			case "reader-error":
+				vC09SetHook(nil)
 			}
 			if !strings.HasPrefix(inj, "corrupt-") {
 				// the same group must be compactable afterwards (nothing stays reserved)
@@ -440,6 +490,8 @@ func vC09CompactionProperty(t *testing.T, name string, blockLimit bool, rule str
 			}
 		} else if inj == "exists" {
 			rt.Fatalf("%s compaction succeeded although its output name %s already existed", verifkit.Sig("compaction-overwrote-existing-output"), filepath.Base(junk))
+		} else if inj == "reader-error" && fired {
+			rt.Fatalf("%s a key was removed from an input file (%s) while the compaction (%s size=%d) was iterating it, the file's block iterator reports \"delete during iteration\", yet the compaction reported success with outputs %v\ncase: %s", verifkit.Sig("reader-error-ignored"), victimTomb, mode, size, run.outs, strings.Join(c.describe(), "\n"))
 		}
 
 		install := func(group, outs []string, size int, inMax map[string]int, when string) []string {
@@ -543,7 +595,7 @@ func vC09CompactionProperty(t *testing.T, name string, blockLimit bool, rule str
 		cl("mode:" + m)
 		cl(fmt.Sprintf("size:%d", size))
 		cl("inject:" + inj + ":" + outcome)
-		if (inj == "abort-block" || inj == "abort-file") && !fired {
+		if (inj == "abort-block" || inj == "abort-file" || inj == "reader-error") && !fired {
 			cl("inject:abort-point-not-reached")
 		}
 		if !whole {
